@@ -105,7 +105,7 @@ def _defaults_setup(n, has_def_none, has_def_cat, has_dep_none, has_dep_cat):
         if has_def_cat:
             dm["cat"] = SStr(z3.String("explicit_default[cat]"), "str")
             it.run.assume(z3.Length(dm["cat"].e) > 0)
-        default_map = SDict(dm)
+        stored = SDict(dict(dm))  # the option map as stored in the configuration: must not be written (it is what to_dict() exports)
         dep = {}
         if has_dep_none:
             dep[None] = _deplist("None")
@@ -115,11 +115,11 @@ def _defaults_setup(n, has_def_none, has_def_cat, has_dep_none, has_dep_cat):
 
         def optionmap(i, a, k):
             which = i.resolve(a[0])
-            return SObj("default optionmap", fields={"copy": SStub(lambda i2, a2, k2: default_map, "copy")}) if which == "default" else depmap
+            return stored if which == "default" else depmap
 
         self = args["self"]
         self.fields.update({"get_context_optionmap": SStub(optionmap, "get_context_optionmap"), "schemes": schemes, "categories": ("cat",)})
-        it.run.ghost.update({"schemes": schemes, "default_map": default_map, "explicit": dict(dm)})
+        it.run.ghost.update({"schemes": schemes, "stored": stored, "explicit": dict(dm)})
         return None
 
     return setup
@@ -133,7 +133,10 @@ def _defaults_post(n, has_def_none, has_def_cat, has_dep_none, has_dep_cat):
     def post(it, env):
         g = it.run.ghost
         schemes = [s.e for s in g["schemes"]]
-        dm = g["default_map"].items
+        dmap = it.resolve(it.resolve(env.lookup("self")).fields.get("_default_schemes"))
+        if dmap is None or dmap is g["stored"] or set(g["stored"].items) != set(g["explicit"]):
+            return False  # computed defaults must live in their own map: the stored 'default' options are not written
+        dm = dmap.items
         ex = g["explicit"]
         out = []
         # default category
@@ -176,7 +179,7 @@ for n in (1, 2, 3):
             params={"self": Obj()},
             setup=_defaults_setup(n, *flags),
             raises={"ValueError": None},
-            ensures=[("a default that is returned is the explicit one (never deprecated), else the first non-deprecated scheme; the category inherits the explicit global default", _defaults_post(n, *flags))],
+            ensures=[("a default that is returned is the explicit one (never deprecated), else the first non-deprecated scheme; the category inherits the explicit global default; the stored option map is left as configured", _defaults_post(n, *flags))],
             canary=False,
             descr="every scheme name, every deprecated-list content (membership abstract)",
         ))
